@@ -66,13 +66,26 @@ class StmtMixin:
             if init: self.stmt(init, out, i2)
             if condvar: raise Unsupported('for with condition variable')
             self.inline_checks += 1
+            cond_pre = None
             try:
-                c = self.expr(cond) if cond else '1'; self.no_pre('for condition', n)
+                c = self.expr(cond) if cond else '1'
+                if self.pre:
+                    # the condition needs statements (temporaries / obligations): evaluated at the top of every iteration
+                    cond_pre = list(self.pre); self.pre.clear(); self.rules['for-condition-with-statements'] += 1
                 i = self.expr(inc) if inc else ''; self.no_pre('for increment', n)
             finally: self.inline_checks -= 1
-            out.append(i2 + 'for (; %s; %s)' % (c, i))
-            out.append(i2 + self.loop_marker())
-            self.block(body, out, i2)
+            if cond_pre is None:
+                out.append(i2 + 'for (; %s; %s)' % (c, i))
+                out.append(i2 + self.loop_marker())
+                self.block(body, out, i2)
+            else:
+                out.append(i2 + 'for (; ; %s)' % i)
+                out.append(i2 + self.loop_marker())
+                out.append(i2 + '{')
+                for p_ in cond_pre: out.append(i2 + '  ' + p_)
+                out.append(i2 + '  if (!(%s)) break;' % c)
+                self.block(body, out, i2 + '  ')
+                out.append(i2 + '}')
             out.append(ind + '}')
         elif k == 'WhileStmt':
             ks = n['inner']
